@@ -3,7 +3,6 @@
  *   h_emit_loop : real parseFrame + parseEmit, sendProbeMsg replaced by a recording stub
  *   h_emit_send : real sendProbeMsg alone with arbitrary arguments
  *   h_emit_full : undecomposed path, descriptor count bounded by NMAX_FULL */
-#define EMIT_MAXD(mtu) (((mtu) - 34) / 14)
 #ifndef NMAX_FULL
 #define NMAX_FULL 3
 #endif
@@ -115,8 +114,13 @@ static void oracle_emit(const vcfg *c, const uint8_t *f, size_t n) {
 struct emit_send_in { uint8_t src[6], dst[6]; uint8_t pause; uint8_t type; uint8_t ack; };
 
 void h_emit_send(void) {
+#ifdef FAULTS_SEND
+    common_setup(1);
+    g_class = CL_ANY;
+#else
     common_setup(0);
     g_class = CL_EMIT;
+#endif
     e_in_full = false;
     /* arguments drawn from the (otherwise unused) frame image */
     mac6_set(s_src.a, in.frame + 0); mac6_set(s_dst.a, in.frame + 6);
@@ -124,10 +128,15 @@ void h_emit_send(void) {
     mac6_set(s_mreal, in.st.mreal); mac6_set(s_mapp, in.st.mapp); s_seq = in.st.seq;
     long live0 = g_live_blocks;
     bool ok = sendProbeMsg(s_src, s_dst, ST, &g_cfgA, s_pause, s_type, s_ack);
+#ifndef FAULTS_SEND
     V_ASSERT(ok, "C06: emission succeeds when the platform transmits");
     V_ASSERT(g_nsend == (s_ack ? 2u : 1u), "C06: one Probe/Train per descriptor, plus exactly one ACK after the last");
     V_ASSERT(g_nsleep == 1, "C06: exactly one pause per descriptor");
-    V_ASSERT(g_live_blocks == live0, "C19: Probe/ACK buffer released");
+#else
+    (void)ok;
+    V_ASSERT(g_nsend <= 2, "C18: at most Probe + ACK attempted under faults");
+#endif
+    V_ASSERT(g_live_blocks == live0, "C18,C19: Probe/ACK buffer released on every path");
     V_WITNESS("h_emit_send end");
 }
 
